@@ -422,7 +422,7 @@ pub fn record_trace(f: &mut impl Write, tid: usize, o: &Opts, labels: &[String],
 pub fn record_trace_m(f: &mut impl Write, tid: usize, o: &Opts, labels: &[String], calls: &[HCall], mirror: &[bool]) {
     let mut w = World::new(o.n, o.cap, o.scratch.clone());
     w.labels = labels.to_vec();
-    let mut rec = crate::drive::Recorder { out: f, tid, events: 0, mirror_next: false, progress: None, last_id: None, observe_every: 0 };
+    let mut rec = crate::drive::Recorder { out: f, tid, events: 0, mirror_next: false, progress: None, last_id: None, observe_every: 0, own: std::collections::BTreeMap::new() };
     rec.reset(&w);
     for (i, c) in calls.iter().enumerate() {
         if mirror.get(i).copied().unwrap_or(false) {
